@@ -6,5 +6,6 @@ import IweModel.Props.C13
 #print axioms Iwe.C13.link_hit_iff
 #print axioms Iwe.C13.line_range_covers_block
 #print axioms Iwe.C13.key_range_is_destination_partial
+#print axioms Iwe.C13.key_range_multiline_counterexample
 #print axioms Iwe.C13.crlf_counterexample
 #print axioms Iwe.C13.multibyte_counterexample
